@@ -601,6 +601,18 @@ def run_case(ctx, case):
                             ctx.violation('sym|get|after-wrapped-get-in-batch:%s' % first_diff(st.obj_tree, got),
                                           'a plain Get following a wrapped Get of the same key in one batch returns %s'
                                           % first_diff(st.obj_tree, got), {'uid': st.uid})
+            # some objects are destroyed by their owners: every other object still reads back as it was stored
+            for st in rng.sample(stored, len(stored) // 3):
+                try:
+                    rd_ = srv.send([op_destroy(st.uid)], (st.owner, None), rng.choice(rig.VERSIONS))
+                except Exception:
+                    continue
+                ctx.ev()
+                if rd_.error is None and rd_.ok():
+                    stored.remove(st)
+                    ctx.count('objects_destroyed_beside_the_others')
+                    for other in rng.sample(stored, min(len(stored), 2)):
+                        check_object(ctx, srv, other, rng.choice(READ_VERSIONS), False)
             # final sweep after a restart, every object under one version each
             srv.restart()
             ctx.count('restarts')
